@@ -44,29 +44,35 @@ example : rewriteFilters (T.or (.and (.atom 0) (.and (.not (.atom 1)) (.atom 0))
 
 /-! ### re-assembling the parent after the OR rewrite -/
 
-/-- FULL STATEMENT (false on the current tree): `∀ operands self new, self ∈ operands →
-      rebuildFirst operands new = substituteOperand operands self new`.
-    `Filter._simplify_up` rebuilds its parent as `type(parent)(new_filter, *parent.operands[1:])`; that is the
-    substitution of the filter only when the filter is the parent's first operand (and occurs once). -/
-theorem C03_or_rewrite_parent_partial {ε : Type} [DecidableEq ε] (self new : ε) (rest : List ε)
-    (h : self ∉ rest) : rebuildFirst (self :: rest) new = substituteOperand (self :: rest) self new := by
-  simp only [rebuildFirst, substituteOperand, List.drop_succ_cons, List.drop_zero, List.map_cons, if_true]
-  congr 1
-  induction rest with
-  | nil => rfl
-  | cons a t ih =>
-    simp only [List.mem_cons, not_or] at h
-    simp only [List.map_cons]
-    rw [if_neg (fun e => h.1 e.symm), ← ih h.2]
+/-- `Filter._simplify_up` returns `parent.substitute(self, new_filter)`: every operand that is the filter becomes
+    the rewritten filter, every other operand is untouched — wherever the filter sits. -/
+theorem C03_or_rewrite_parent {ε : Type} [DecidableEq ε] (operands : List ε) (self new : ε) (i : Nat) :
+    (substituteOperand operands self new)[i]? = (operands[i]?).map (fun o => if o = self then new else o) := by
+  simp [substituteOperand]
 
-/-- the filter as second operand (right input of a Merge, right operand of a binop, a frame of Concat):
-    the first operand is overwritten and the old filter stays -/
-theorem C03_or_rewrite_parent_counterexample :
+/-- … hence the parent sees operands of unchanged meaning, for any meaning `ev` under which the rewritten filter
+    equals the old one (`C03_or_factoring` gives that for the rows of `Filter(frame, rewrite_filters p)`) -/
+theorem C03_or_rewrite_parent_meaning {ε V : Type} [DecidableEq ε] (ev : ε → V) (operands : List ε) (self new : ε)
+    (h : ev new = ev self) : (substituteOperand operands self new).map ev = operands.map ev := by
+  simp only [substituteOperand, List.map_map]
+  apply List.map_congr_left
+  intro o _
+  simp only [Function.comp]
+  split
+  · next heq => rw [h, heq]
+  · rfl
+
+/-- the re-assembly the code used before (`type(parent)(new, *parent.operands[1:])`), kept as a hypothetical -/
+def rebuildFirst {ε} (operands : List ε) (new : ε) : List ε := new :: operands.drop 1
+
+/-- why that was wrong: with the filter as second operand (right input of a Merge, right operand of a binop,
+    a frame of Concat) the first operand is overwritten and the old filter stays -/
+theorem C03_rebuild_first_would_be_unsound :
     ∃ (operands : List Nat) (self new : Nat), self ∈ operands ∧
       rebuildFirst operands new ≠ substituteOperand operands self new :=
   ⟨[7, 1], 1, 2, by decide, by decide⟩
 
-example : rebuildFirst [1, 7, 8] 2 = substituteOperand [1, 7, 8] 1 2 := by decide
+example : substituteOperand [7, 1, 8] 1 2 = [7, 2, 8] := by decide
 
 /-! ### splitting a conjunction, squashing consecutive filters -/
 
@@ -113,10 +119,19 @@ theorem C03_cross_rowlocal_map {ρ σ : Type} (f : ρ → σ) (predOut : σ → 
     (rows.map f).filter predOut = (rows.filter predIn).map f :=
   cross_rowlocal (List.map f) f predOut predIn ⟨fun _ => rfl⟩ ⟨h⟩ rows
 
-/-- what goes wrong for a row-local operator that changes a value the predicate reads (D8: `astype`) -/
-theorem C03_cross_value_changing_counterexample :
+/-- why the input may only be substituted into the predicate under a value-preservation guard (D8, fixed):
+    for a value-changing row-local operator the substituted predicate selects other rows -/
+theorem C03_cast_substitution_would_be_unsound :
     ∃ (f : Int → Int) (pred : Int → Bool) (rows : List Int), (rows.map f).filter pred ≠ (rows.filter pred).map f :=
   ⟨fun x => x / 2, fun x => decide (x > 0), [1, 2], by decide⟩
+
+/-- a row-local operator that may change values (`astype` with an unsafe cast): the filter still moves below it
+    when its predicate keeps reading the operator's output — `AsType(frame[pred(AsType(frame))])`, which is what
+    `AsType._simplify_up` builds when `_is_value_preserving()` is false.  No hypothesis on the cast. -/
+theorem C03_cross_rowlocal_cast {ρ σ : Type} (op : List ρ → List σ) (f : ρ → σ) (pred : σ → Bool)
+    (h : RowLocalLaw op f) (rows : List ρ) :
+    (op rows).filter pred = op (rows.filter (fun r => pred (f r))) :=
+  cross_rowlocal op f pred (fun r => pred (f r)) h ⟨fun _ => rfl⟩ rows
 
 /-- reordering operator (shuffle, sort): the same rows, up to the order the operator leaves unspecified -/
 theorem C03_cross_reorder {ρ : Type} (op : List ρ → List ρ) (h : ReorderLaw op) (p : ρ → Bool) (rows : List ρ) :
@@ -151,6 +166,11 @@ def FilterCommutes : Category → Prop
   | .rowLocalValuePreserving =>
       ∀ (ρ σ : Type) (op : List ρ → List σ) (f : ρ → σ) (predOut : σ → Bool) (predIn : ρ → Bool),
         RowLocalLaw op f → ValuePreserving f predOut predIn → ∀ rows, (op rows).filter predOut = op (rows.filter predIn)
+  | .rowLocalGuarded =>
+      -- under the class's guard (values the predicate reads are preserved) the input is substituted; otherwise not
+      ∀ (ρ σ : Type) (op : List ρ → List σ) (f : ρ → σ) (predOut : σ → Bool), RowLocalLaw op f →
+        (∀ rows, (op rows).filter predOut = op (rows.filter (fun r => predOut (f r)))) ∧
+        (∀ predIn : ρ → Bool, ValuePreserving f predOut predIn → ∀ rows, (op rows).filter predOut = op (rows.filter predIn))
   | .reorder =>
       ∀ (ρ : Type) (op : List ρ → List ρ), ReorderLaw op → ∀ p rows, ((op rows).filter p).Perm (op (rows.filter p))
   | .partitionOnly =>
@@ -164,6 +184,10 @@ def FilterCommutes : Category → Prop
 theorem C03_cross (c : Category) (h : c.filterCommuting = true) : FilterCommutes c := by
   cases c with
   | rowLocalValuePreserving => intro ρ σ op f po pi h1 h2 rows; exact cross_rowlocal op f po pi h1 h2 rows
+  | rowLocalGuarded =>
+    intro ρ σ op f po h1
+    exact ⟨fun rows => C03_cross_rowlocal_cast op f po h1 rows,
+           fun pi h2 rows => cross_rowlocal op f po pi h1 h2 rows⟩
   | reorder => intro ρ op h p rows; exact cross_reorder op h p rows
   | partitionOnly => intro ρ op h p parts; exact cross_partition_only op h p parts
   | rowSelect => intro ρ op s h p rows; exact cross_rowselect op s h p rows
@@ -233,17 +257,31 @@ theorem C03_reader_nulls (p : T Atom) (v : Cells) (hneg : p.negFree = true)
   intro a ha
   exact atom_nullCompatible v a (hnc a ha)
 
-/-- end to end for a pushed predicate: reader on the combined DNF = pandas on the predicate, with nulls -/
-theorem C03_reader_pushdown (p : T Atom) (d : DNF Atom) (v : Cells) (h : extractPq p = some d)
-    (hnc : ∀ a ∈ p.atoms, a.NullCompatible = true) : keepDNF3 v d = eval2c v p := by
-  rw [C03_dnf_kleene p d h v]
-  exact C03_reader_nulls p v (extractPq_sound p d h).2.1 hnc
+/-- everything the code pushes is null-compatible (`!=` is not extracted any more) -/
+theorem C03_extract_null_compatible (p : T Atom) (d : DNF Atom) (h : extractPq p = some d) :
+    ∀ a ∈ p.atoms, a.NullCompatible = true :=
+  extractPq_nullCompatible p d h
 
-/-- FULL STATEMENT (false on the current tree, D9): `∀ p d v, extractPq p = some d → keepDNF3 v d = eval2c v p`.
-    `!=` is pushed although a reader drops the rows where the column is null and pandas keeps them. -/
-theorem C03_ne_null_counterexample :
-    ∃ (p : T Atom) (d : DNF Atom) (v : Cells), extractPq p = some d ∧ keepDNF3 v d ≠ eval2c v p :=
-  ⟨.atom (.cmp 0 .ne 2), [[.cmp 0 .ne 2]], fun _ => none, rfl, by decide⟩
+/-- end to end for a pushed predicate, no side condition: whenever `extract_pq_filters` yields filters, the reader's
+    three-valued row test on them keeps exactly the rows pandas keeps for the predicate — with nulls -/
+theorem C03_reader_pushdown (p : T Atom) (d : DNF Atom) (v : Cells) (h : extractPq p = some d) :
+    keepDNF3 v d = eval2c v p := by
+  rw [C03_dnf_kleene p d h v]
+  exact C03_reader_nulls p v (extractPq_sound p d h).2.1 (extractPq_nullCompatible p d h)
+
+/-- why `!=` must not be pushed (D9, fixed): as a reader filter it drops the row whose cell is null, pandas keeps it -/
+theorem C03_ne_pushdown_would_be_unsound :
+    ∃ (v : Cells), keepDNF3 v [[Atom.cmp 0 .ne 2]] ≠ eval2c v (.atom (.cmp 0 .ne 2)) :=
+  ⟨fun _ => none, by decide⟩
+
+/-- … and the code refuses it, alone or inside a conjunction / disjunction -/
+theorem C03_ne_not_extracted (col : Nat) (c : Int) (q : T Atom) :
+    extractPq (.atom (.cmp col .ne c)) = none
+    ∧ extractPq (.and (.atom (.cmp col .ne c)) q) = none
+    ∧ extractPq (.or q (.atom (.cmp col .ne c))) = none := by
+  refine ⟨rfl, rfl, ?_⟩
+  simp only [extractPq]
+  cases extractPq q <;> rfl
 
 example : extractPq (.or (.and (.atom (.cmp 0 .lt 3)) (.atom (.cmp 1 .ge 2))) (.atom (.cmp 0 .eq 7)))
     = some [[.cmp 0 .lt 3, .cmp 1 .ge 2], [.cmp 0 .eq 7]] := by decide
@@ -323,36 +361,37 @@ theorem C03_join_right_counterexample :
     (join .right (fun a b : Nat => a == b) [1] [1]).filter (fun jr => (fun _ => false) jr.1)
       ≠ join .right (fun a b : Nat => a == b) ([1].filter (fun _ => false)) [1] := by decide
 
-/-- FULL STATEMENT (false on the current tree, see `C03_join_table_counterexample`):
-      ∀ how pc isAnd dep lcoll rcoll, mergeFilterAvail true how pc isAnd dep = true →
-        joinPushLegal how (mergePushSides pc lcoll rcoll) = true ∧ sides ⊆ semanticSides
-    The decision tables of `Merge._filter_passthrough_available` + `Merge._simplify_up`: whenever the rule
-    fires it filters only inputs that own the predicate's columns and only for legal join kinds —
-    except when the predicate's column name exists in both inputs and only the LEFT one is renamed by its suffix. -/
-theorem C03_join_table_partial (how : How) (pc : PredCols) (isAnd dep lcoll rcoll : Bool)
-    (havail : mergeFilterAvail true how pc isAnd dep = true)
-    (hexcl : ¬ (pc = .both ∧ lcoll = true ∧ rcoll = false ∧ (how = .left ∨ how = .leftsemi))) :
+/-- The decision tables of `Merge._filter_passthrough_available` + `Merge._simplify_up` (both through
+    `_filter_sides`): whenever the rule fires it filters only inputs that own the predicate's columns in the output
+    (suffix renames accounted for) and only for join kinds for which `C03_join_side` proves the move. -/
+theorem C03_join_table (how : How) (pc : PredCols) (isAnd dep lcoll rcoll : Bool)
+    (havail : mergeFilterAvail true how pc lcoll rcoll isAnd dep = true) :
     joinPushLegal how (mergePushSides pc lcoll rcoll) = true
     ∧ ((mergePushSides pc lcoll rcoll).1 = true → (semanticSides pc lcoll rcoll).1 = true)
     ∧ ((mergePushSides pc lcoll rcoll).2 = true → (semanticSides pc lcoll rcoll).2 = true) := by
   cases how <;> cases pc <;> cases lcoll <;> cases rcoll <;>
-    simp_all [mergeFilterAvail, mergePushSides, joinPushLegal, semanticSides]
+    simp_all [mergeFilterAvail, mergeFilterSides, mergePushSides, joinPushLegal, semanticSides]
 
-/-- the excluded cell: `suffixes=("_x", "")`, `how="left"`, predicate on the unsuffixed (right) column:
-    the table accepts, the right input of a left join gets the filter, which `C03_join_side_converse` refutes -/
-theorem C03_join_table_counterexample :
-    mergeFilterAvail true .left .both false false = true
-    ∧ mergePushSides .both true false = (false, true)
-    ∧ joinPushLegal .left (false, true) = false
-    ∧ ¬ JoinFilterLegal .left (false, true) :=
-  ⟨rfl, rfl, rfl, C03_join_side_converse .left (false, true) rfl⟩
+/-- composed with the semantics: a firing of the rule is a legal move -/
+theorem C03_join_table_sound (how : How) (pc : PredCols) (isAnd dep lcoll rcoll : Bool)
+    (havail : mergeFilterAvail true how pc lcoll rcoll isAnd dep = true) :
+    JoinFilterLegal how (mergePushSides pc lcoll rcoll) :=
+  C03_join_side how _ (C03_join_table how pc isAnd dep lcoll rcoll havail).1
+
+/-- the cell that used to be wrong (`suffixes=("_x","")`, predicate on the unsuffixed right column): the filter goes
+    to the right input, and now only for `right`/`inner` joins -/
+theorem C03_join_table_renamed_left (how : How) (isAnd dep : Bool) :
+    mergePushSides .both true false = (false, true)
+    ∧ (mergeFilterAvail true how .both true false isAnd dep = true ↔ (how = .right ∨ how = .inner)) := by
+  cases how <;> simp [mergePushSides, mergeFilterSides, mergeFilterAvail]
 
 /-- suffixing: a predicate whose columns are renamed on both sides, or are not input columns at all, is never pushed -/
 theorem C03_join_suffix (how : How) (isAnd dep : Bool) :
     mergePushSides .both true true = (false, false)
-    ∧ mergeFilterAvail true how .neither isAnd dep = false
-    ∧ mergeFilterAvail true how .unknown isAnd dep = false := by
-  cases how <;> simp [mergePushSides, mergeFilterAvail]
+    ∧ (∀ l r, mergeFilterAvail true how .neither l r isAnd dep = false)
+    ∧ (∀ l r, mergeFilterAvail true how .unknown l r isAnd dep = false)
+    ∧ mergeFilterAvail true how .both true true isAnd dep = false := by
+  cases how <;> simp [mergePushSides, mergeFilterSides, mergeFilterAvail]
 
 -- non-vacuity: real joins with matches, misses and duplicates
 example : join .left (fun a b : Nat => a % 3 == b % 3) [1, 2, 3] [4, 7, 5] =
@@ -361,6 +400,6 @@ example : (join .left (fun a b : Nat => a % 3 == b % 3) [1, 2, 3] [4, 7, 5]).fil
     = join .left (fun a b : Nat => a % 3 == b % 3) ([1, 2, 3].filter (fun a => (fun o => o != some 1) (some a))) [4, 7, 5] := by decide
 example : join .outer (fun a b : Nat => a == b) [1, 2] [2, 3] = [(some 1, none), (some 2, some 2), (none, some 3)] := by decide
 example : join .leftsemi (fun a b : Nat => a == b) [1, 2, 2] [2, 2, 3] = [(some 2, none), (some 2, none)] := by decide
-example : mergeFilterAvail true .left .left false false = true ∧ mergePushSides .left false false = (true, false) := ⟨rfl, rfl⟩
+example : mergeFilterAvail true .left .left false false false false = true ∧ mergePushSides .left false false = (true, false) := ⟨rfl, rfl⟩
 
 end Dx
